@@ -684,8 +684,8 @@ def op_tokens(op):
         return f"set {op[1]} {val_tok(op[2])}"
     if k == "del":
         return f"del {op[1]}"
-    if k in ("with", "withu"):
-        return f"with {op[1]} {val_tok(op[2])}"
+    if k in ("with", "withu"):  # with_<n>(v) / update_<n>(v)
+        return f"{k} {op[1]} {val_tok(op[2])}"
     if k == "tf":
         return f"tf {op[1]} {op[2]}"
     if k == "rst":
@@ -1683,6 +1683,6 @@ def extra(tier, rng):
 
 MANIFEST_ENTRY = {
     "level_text": "Lean 4 proof, about a hand-written executable model of bootstrap's assembly of metadata.attrs along the class hierarchy (which declaration of a redeclared name counts) / invalidation_map / invalidate_attrs / mutate_attr / __delattr__ / spec_property and every mutation entry point, that (a) invalidate_attrs terminates within a cubic fuel bound on every table with no dependency cycle through a defaulted attribute and clears exactly the transitive dependants of the mutated name, whatever the iteration order and cache state; (b) the invariant Fresh (every cached, non-overridden slot equals its getter on the cache-free state; every invalidated_by attribute is at its default if a dependency was assigned later) holds after construction and after every history of reads, overrides and mutations through every entry point, in place or on a copy; (c) the next read after a dependency change recomputes, unrelated and failed mutations discard nothing; (d) the invalidation map is exactly what the effective declarations say: a property declared by the instance's own spec class with dependencies of its own is invalidated by exactly those whatever the ancestors declared, a re-defaulted attribute keeps the inherited invalidated_by. The model is tied to /repo on every run by executing the same histories on rendered spec classes and on the model and comparing value read, getter-call log and every instance __dict__ after each step; an independent oracle recomputes each getter on a cache-free clone.",
-    "level_note": "Trusted: Lean kernel; axioms propext/Classical.choice/Quot.sound; the hand-written model and the harness. Assumes pure getters that read only declared (transitive) dependencies and no cycle through a defaulted attribute. OPEN: dependants declared in an undecorated subclass are never invalidated (KF-C11-plain-subclass): proved only under OwnerCoversDependants, with a decided counter-witness for the full statement.",
+    "level_note": "Trusted: Lean kernel; axioms propext/Classical.choice/Quot.sound; the hand-written model and the harness. Assumes pure getters that read only declared (transitive) dependencies and no cycle through a defaulted attribute. OPEN: dependants declared in an undecorated subclass are never invalidated (KF-C11-plain-subclass): proved only under OwnerCoversDependants, with a decided counter-witness for the full statement; a property that an undecorated class BETWEEN two spec classes puts over a managed attribute is invalidated by the inherited instead of its own invalidated_by (KF-C11-plain-middle-override): owner_covers_of_spec_head is proved only under PlainClassesSilent, with the decided counter-witness middle_override_not_covered.",
     "technique": "Lean 4 invariant proof (all histories) + exact characterisation of the invalidation fixpoint over a hand-written model; differential correspondence against the real library with a getter-call counter",
 }
